@@ -96,19 +96,24 @@ def prover_exploration(runs, seed):
     # a --save-problems directory that is re-used by several runs (a larger task first): the files of a run must be
     # exactly what the prover received in that run, whatever the directory held before
     shared_save = Path(tempfile.mkdtemp(prefix="c10_save_", dir=str(VERIF / "work")))
-    for k in range(runs):
+    # runs k < 0 are a fixed matrix (every fault kind once with one prover instance and once with three: a fault the
+    # pool loses - an answer that never arrives counting as success - shows whatever the seed); runs k >= 0 are drawn
+    for k in range(-2 * len(KINDS), runs):
+        matrix = k < 0
         work = Path(tempfile.mkdtemp(prefix="c10_", dir=str(VERIF / "work")))
         try:
             bindir = work / "bin"
             bindir.mkdir()
             fake = bindir / "vampire"
-            missing = (k % 11 == 10)
+            missing = (k % 11 == 10) and not matrix
             if not missing:
                 fake.write_text(FAKE_VAMPIRE)
                 fake.chmod(0o755)
-            reuse = (k % 5 in (1, 2))
+            reuse = (k % 5 in (1, 2)) and not matrix
             # re-used directory: a larger task in run k%5==1, a smaller one right after it
             left, right = (PROGRAM_PAIRS[0] if k % 5 == 1 else PROGRAM_PAIRS[2]) if reuse else PROGRAM_PAIRS[rng.randrange(len(PROGRAM_PAIRS))]
+            if matrix:
+                left, right = PROGRAM_PAIRS[0]
             (work / "left.lp").write_text(left)
             (work / "right.lp").write_text(right)
             fdir = work / "fake"
@@ -125,7 +130,7 @@ def prover_exploration(runs, seed):
                 plan = [[rng.choice(KINDS), rng.random() * 0.05] for _ in range(nplan)]
             # every seventh run: a time limit of one second and one answer (CounterSatisfiable) that arrives well after twice the
             # limit - the stand-in ignores the limit, and a late result is still a result
-            late = (k % 7 == 3) and not missing
+            late = (k % 7 == 3) and not missing and not matrix
             if late:
                 plan = [["Theorem", 0.0] for _ in range(nplan)]
                 plan[rng.randrange(2)] = ["late-countersat", 2.6]
@@ -139,6 +144,13 @@ def prover_exploration(runs, seed):
             env = dict(os.environ, PATH=str(bindir) + ":/usr/bin:/bin", FAKE_VAMPIRE_DIR=str(fdir), RUST_BACKTRACE="0")
             if late:
                 instances = rng.choice([2, 3, 4])
+            if matrix:
+                # exactly one deviating outcome of this kind, all other answers Theorem; one prover instance, then three
+                kind = KINDS[(k + 2 * len(KINDS)) % len(KINDS)]
+                plan = [["Theorem", 0.01 * (j % 3)] for j in range(nplan)]
+                plan[k % 2] = [kind, 0.02]
+                (fdir / "plan.json").write_text(__import__("json").dumps(plan))
+                instances = 1 if k < -len(KINDS) else 3
             # every sixth run prints the timings too (the verdict does not depend on them)
             timed = (k % 6 == 4)
             cmd = [str(ANTHEM), "verify", "--equivalence", "strong", "--decomposition", decomposition, "--direction", direction] + ([] if timed else ["--no-timing"]) + [
@@ -183,7 +195,8 @@ def prover_exploration(runs, seed):
         finally:
             shutil.rmtree(work, ignore_errors=True)
     shutil.rmtree(shared_save, ignore_errors=True)
-    return {"evaluations": runs, "distinct_nontrivial": n_ok, "samples": samples, "cli_runs": runs, "cli_runs_agreeing": n_ok}, failures
+    total = runs + 2 * len(KINDS)
+    return {"evaluations": total, "distinct_nontrivial": n_ok, "samples": samples, "cli_runs": total, "cli_runs_agreeing": n_ok, "fault_matrix_runs": 2 * len(KINDS)}, failures
 
 
 # ------------------------------------------------------------------ C16: crash exploration
@@ -315,12 +328,17 @@ def _quant_nest(n):
 
 EDGE_TEXTS = {
     "lp": ["", "% only a comment\n", "p.\n", "p(X) :- q(X).\n", ":- p.\n", "{p(1..3)}.\nq(X) :- p(X), not r.\n",
-           "p(" + _nest(60, "(", ")", "1") + ").\n", "p(" + _nest(40, "-(", ")", "X") + ") :- q(X).\n"],
+           "p(" + _nest(60, "(", ")", "1") + ").\n", "p(" + _nest(40, "-(", ")", "X") + ") :- q(X).\n",
+           "p(9223372036854775807, -9223372036854775808).\n", "p(9223372036854775808).\n", "p(-9223372036854775809).\n", "p(X) :- q(X), X < 9999999999999999999.\n"],
     "spec": ["", "% only a comment\n", "p.\n", "forall X (p(X) <-> q(X)).\n",
              # deep nesting (a few hundred bytes): quantifiers, negations, parentheses, arithmetic
              _quant_nest(30), _nest(40, "not ", "", "p") + ".\n", _nest(60, "(", ")", "p") + ".\n",
              "p(" + _nest(40, "-(", ")", "1") + ").\n", _nest(25, "forall X (p(X) and ", ")", "q") + ".\n"],
-    "ug": ["", "% only a comment\n", "input: q/1.\noutput: p/1.\n", "input: n -> integer.\noutput: p/0.\nassumption: n > 0.\n"],
+    "ug": ["", "% only a comment\n", "input: q/1.\noutput: p/1.\n", "input: n -> integer.\noutput: p/0.\nassumption: n > 0.\n",
+           # arities and numerals at the limits of usize / isize (accepted ones must survive every later stage)
+           "input: q/9223372036854775807.\noutput: p/1.\n", "input: q/9223372036854775808.\noutput: p/1.\n", "input: q/18446744073709551615.\noutput: p/1.\n",
+           "input: q/18446744073709551616.\noutput: p/1.\n", "input: q/1.\noutput: p/1.\nassumption: forall X (q(X) -> X > -9223372036854775808 and X < 9223372036854775807).\n",
+           "input: q/1.\noutput: p/1.\nassumption: forall X (q(X) -> X < 9223372036854775808).\n"],
     "po": ["", "% only a comment\n", "lemma: forall X (p(X) -> p(X)).\n", "inductive-lemma: forall N$i (N$i >= 0 -> N$i >= 0).\n"],
 }
 
@@ -413,6 +431,12 @@ def edge_matrix(work):
         shutil.rmtree(cout, ignore_errors=True); cout.mkdir()
         yield ["verify", "--equivalence", "external", "--no-proof-search", "--decomposition", fl[0], "--direction", fl[1], "--save-problems", str(cout)] + \
               ([] if fl[2] == "true" else ["--no-simplify"]) + ([] if fl[3] == "true" else ["--no-eq-break"]) + files, "|".join(parts[1:5])
+    # user guides with arities / numerals at the limits through the whole pipeline
+    for k, u in enumerate(EDGE_TEXTS["ug"][4:]):
+        fu = miss / f"limit{k}.ug"
+        fu.write_text(u)
+        yield ["verify", "--equivalence", "external", "--no-proof-search", m("a.lp"), m("b.lp"), str(fu)], u
+        yield ["verify", "--equivalence", "external", "--no-proof-search", m("s.spec"), m("a.lp"), str(fu)], u
     out = work / "edge_out"
     for dec in ("independent", "sequential"):
         for dirn in ("universal", "forward", "backward"):
@@ -456,7 +480,7 @@ def crash_exploration(runs, seed):
                     for c in cls:
                         known_seen[c] = known_seen.get(c, 0) + 1
                 else:
-                    failures.append({"command": [c if not c.startswith(str(work)) else Path(c).name for c in cmd], "input": text[:3000],
+                    failures.append({"command": [("<stdin" if isinstance(c, tuple) else c if not c.startswith(str(work)) else Path(c).name) for c in cmd], "input": text[:3000],
                                      "outcome": o, "stderr": err[-800:], "from": "edge matrix (files separated by |)"})
         for k in range(runs):
             kind = rng.choice(["lp", "lp", "spec", "spec", "ug", "po"])
